@@ -1,1 +1,70 @@
-import EoNVerif.Spec.Predicates
+import EoNVerif.Proofs.Investigation
+/-!
+C10 — target statements: the full-data object and the plain arrays describe the same epidemic.
+`Invest.histOf/histories` = node histories built from an event log; `Invest.arraysOf` = the arrays built from the same
+log; `Pred.statusAt`, `Pred.summarySpec`, `Pred.arraysMatch`, `Pred.histWFg`, `Pred.nodeStatusImpl` are the executable
+predicates that the harness evaluates on the implementation's own histories.
+-/
+namespace Invest
+open Pred
+
+/-- **node_status / get_statuses**: for any query time at or after tmin, the status of the latest change at or
+before that time is the status after all events with time ≤ T -/
+theorem statusAt_histOf (tmin : Rat) (init : Node → String) (nodes : List Node) (log : Log)
+    (h : ValidLog tmin nodes log) (v : Node) (T : Rat) (hT : tmin ≤ T) :
+    statusAt (histOf tmin init log v) T = some (statusAfter init log (upTo log T) v) :=
+  statusAt_histOf' tmin init nodes log h v T hT
+
+/-- the implementation's count-based lookup (`len([t for t in changetimes if t <= time]) - 1`) agrees with the
+specification on time-ordered histories, for every query time at or after tmin -/
+theorem nodeStatusImpl_eq_statusAt (tmin : Rat) (init : Node → String) (nodes : List Node) (log : Log)
+    (h : ValidLog tmin nodes log) (v : Node) (T : Rat) (hT : tmin ≤ T) :
+    nodeStatusImpl (histOf tmin init log v) T = statusAt (histOf tmin init log v) T :=
+  nodeStatusImpl_eq_statusAt' tmin init nodes log h v T hT
+
+/-- each node history starts at tmin, is time-ordered and only makes legal moves, provided every event of the log is
+a legal move of its node's status at that moment -/
+theorem histWF_histOf (tmin : Rat) (init : Node → String) (nodes : List Node) (log : Log)
+    (h : ValidLog tmin nodes log) (legal : List (String × String))
+    (hl : ∀ k, k < log.length → ∀ e, log[k]? = some e → (statusAfter init log k e.2.1, e.2.2) ∈ legal)
+    (v : Node) : histWFg legal tmin (histOf tmin init log v) = true :=
+  histWF_histOf' tmin init nodes log h legal hl v
+
+set_option linter.unusedVariables false in -- `hn` (Nodup) is not needed by the proof
+/-- **summary == arrays**: the counts implied by the node histories at each distinct change time equal the array
+rows with equal-time rows collapsed to the last -/
+theorem summary_eq_arrays (tmin : Rat) (init : Node → String) (nodes : List Node) (log : Log)
+    (h : ValidLog tmin nodes log) (hn : nodes.Nodup) (hne : nodes ≠ []) (statuses : List String) :
+    arraysMatch true (arraysOf tmin init log nodes statuses) (histories tmin init log nodes) statuses = true :=
+  summary_eq_arrays' tmin init nodes log h hne statuses
+
+set_option linter.unusedVariables false in -- `hn` (Nodup) is not needed by the proof
+/-- `summary()` itself is the collapsed arrays -/
+theorem summarySpec_eq_collapse (tmin : Rat) (init : Node → String) (nodes : List Node) (log : Log)
+    (h : ValidLog tmin nodes log) (hn : nodes.Nodup) (hne : nodes ≠ []) (statuses : List String) :
+    trajEq (summarySpec (histories tmin init log nodes) statuses)
+           (collapse (arraysOf tmin init log nodes statuses)) = true :=
+  summarySpec_eq_collapse' tmin init nodes log h hne statuses
+
+/-- summary over a node subset counts exactly the nodes of that subset -/
+theorem summary_subset (tmin : Rat) (init : Node → String) (log : Log) (sub : List Node) (s : String) (T : Rat) :
+    countAt (histories tmin init log sub) T s =
+      ((sub.filter fun v => statusAt (histOf tmin init log v) T == some s).length : Int) :=
+  countAt_histories tmin init log sub s T
+
+end Invest
+
+/-! non-vacuity: three nodes, two simultaneous events, a reinfection -/
+def exLog : Invest.Log := [(1, 0, "I"), (1, 1, "I"), (2, 0, "S"), (5/2, 0, "I")]
+def exInit (v : Node) : String := if v = 2 then "I" else "S"
+example : Pred.arraysMatch true (Invest.arraysOf 0 exInit exLog [0, 1, 2] ["S", "I"])
+    (Invest.histories 0 exInit exLog [0, 1, 2]) ["S", "I"] = true := by decide +kernel
+example : (Pred.summarySpec (Invest.histories 0 exInit exLog [0, 1, 2]) ["S", "I"]).cols =
+    [[2, 0, 1, 0], [1, 3, 2, 3]] := by decide +kernel
+example : (Pred.summarySpec (Invest.histories 0 exInit exLog [0, 1, 2]) ["S", "I"]).times = [0, 1, 2, 5/2] := by
+  decide +kernel
+example : Invest.ValidLog 0 [0, 1, 2] exLog := by
+  refine ⟨by decide +kernel, ?_⟩
+  intro e he
+  simp only [exLog, List.mem_cons, List.not_mem_nil, or_false] at he
+  rcases he with rfl | rfl | rfl | rfl <;> decide
